@@ -225,10 +225,12 @@ def _derefs(f, p):
     out = {}
     guarded_nodes = set()
     for i in own_walk(f.node):
-        if isinstance(i, ast.If):
-            t = ast.unparse(i.test)
-            if t.startswith(f'isinstance({p},'):
-                for b in i.body:
+        if isinstance(i, (ast.If, ast.IfExp)):
+            pt, pbody, _pelse = G.pos_if(i)
+            # the branch runs only if isinstance(p, ...) holds: the test itself, or one conjunct of it
+            conj = pt.values if isinstance(pt, ast.BoolOp) and isinstance(pt.op, ast.And) else [pt]
+            if any(ast.unparse(c).startswith(f'isinstance({p},') for c in conj):
+                for b in (pbody if isinstance(pbody, list) else [pbody]):
                     for y in ast.walk(b):
                         guarded_nodes.add(id(y))
     for x in own_walk(f.node):
@@ -332,10 +334,18 @@ def rule_MIRROR(ctx):
             if isinstance(st, ast.Assign) and len(st.targets) == 1 and isinstance(st.targets[0], ast.Name):
                 rebinds.setdefault(st.targets[0].id, st.lineno)
 
-        def ok_index(e, line):
+        def ok_index(e, line, depth=0):
             if isinstance(e, ast.Name):
                 if e.id in mirrored and (e.id not in params or rebinds.get(e.id, 10 ** 9) < line):
                     return 'mirrored slice'
+                # a local that is, on every path, the mirrored slice or the mirrored index (a merged int/slice key)
+                if e.id not in params and depth < 2:
+                    vals = [y.value for y in own_walk(f.node) if isinstance(y, ast.Assign) and len(y.targets) == 1 and isinstance(y.targets[0], ast.Name)
+                            and y.targets[0].id == e.id]
+                    kinds = [('mirrored slice' if isinstance(v, ast.Call) and isinstance(v.func, ast.Name) and v.func.id == 'offset_slice_indices_lsb0'
+                              else ok_index(v, line, depth + 1)) for v in vals]
+                    if vals and all(kinds):
+                        return ' / '.join(sorted(set(kinds)))
                 return None
             if isinstance(e, ast.Slice):
                 for b in (e.lower, e.upper, e.step):
